@@ -1824,7 +1824,7 @@ size_t rtosc_scan_arg_val(const char* src,
 
                 // lossless format is appended in parentheses?
                 //  => take it directly from there
-                if(skip_fmt(&src, "%*f (%n"))
+                if(*src == '.' && skip_fmt(&src, "%*f (%n"))
                 {
                     // the printer writes the fraction as a hex float
                     // ("%a"), e.g. "0x1p-1" or "0x80000000p-32"
